@@ -57,6 +57,12 @@ def c14Run : Op := fun j => do
         o := r.1
         w := r.2.1
         out := out.push (Json.mkObj [("evs", Json.arr (r.2.2.map encEv).toArray)])
+      | "setNrep" =>
+        match rest with
+        | [n] =>
+          o := { o with nrep := ← n.getNat? }       -- `S.Nrep = n` (public attribute)
+          out := out.push (Json.mkObj [])
+        | _ => throw "setNrep needs one argument"
       | "results" =>
         match results o with
         | .ok rows => out := out.push (Json.mkObj [("rows", encRows rows)])
